@@ -46,4 +46,160 @@ def util_xopen_decorators : List String := []
 /-- the signature of dataiter/util.py: xopen: parameters in order, with the source text of their defaults -/
 def util_xopen_signature : List String := ["path", "mode='r'", "**kwargs"]
 
+/-- dataiter/data_frame.py: DataFrame.write_csv (sha256 of the function source: 4f9ea5601792ebd1) -/
+def DataFrame_write_csv (truth : Term → Bool) : Out :=
+  let table' : Term := (Term.app ".to_arrow" [(Term.sym "self")]);
+  let eff0 : Term := (Term.app "util.makedirs_for_file" [(Term.sym "path")]);
+  let eff1 : Term := (Term.app "with" [(Term.app "util.xopen" [(Term.sym "path"), (Term.sym "'wb'")])]);
+  let eff2 : Term := (Term.app "csv.write_csv" [table', eff1, (Term.app "=write_options" [(Term.app "csv.WriteOptions" [(Term.app "=include_header" [(Term.sym "header")]), (Term.app "=delimiter" [(Term.sym "sep")]), (Term.app "=quoting_style" [(Term.sym "'needed'")])])])]);
+  if truth (Term.app "NotEq" [(Term.app "codecs.lookup" [(Term.sym "encoding")]), (Term.app "codecs.lookup" [(Term.sym "'utf-8'")])]) then
+    let eff3 : Term := (Term.app "with" [(Term.app "util.xopen" [(Term.sym "path"), (Term.sym "'rt'"), (Term.app "=encoding" [(Term.sym "'utf-8'")])])]);
+    let text' : Term := (Term.app ".read" [eff3]);
+    let eff4 : Term := (Term.app "with" [(Term.app "util.xopen" [(Term.sym "path"), (Term.sym "'wt'"), (Term.app "=encoding" [(Term.sym "encoding")])])]);
+    let eff5 : Term := (Term.app ".write" [eff4, text']);
+    Out.fall [eff0, eff1, eff2, eff3, eff4, eff5]
+  else
+    Out.fall [eff0, eff1, eff2]
+
+/-- the decorators of dataiter/data_frame.py: DataFrame.write_csv, outermost first -/
+def DataFrame_write_csv_decorators : List String := []
+
+/-- the signature of dataiter/data_frame.py: DataFrame.write_csv: parameters in order, with the source text of their defaults -/
+def DataFrame_write_csv_signature : List String := ["self", "path", "*", "encoding='utf-8'", "header=True", "sep=','"]
+
+/-- dataiter/data_frame.py: DataFrame.write_json (sha256 of the function source: a6454a01f613f718) -/
+def DataFrame_write_json (truth : Term → Bool) : Out :=
+  Out.ret [] (Term.app ".write_json" [(Term.app ".to_list_of_dicts" [(Term.sym "self")]), (Term.sym "path"), (Term.app "=encoding" [(Term.sym "encoding")]), (Term.app "=**" [(Term.sym "kwargs")])])
+
+/-- the decorators of dataiter/data_frame.py: DataFrame.write_json, outermost first -/
+def DataFrame_write_json_decorators : List String := []
+
+/-- the signature of dataiter/data_frame.py: DataFrame.write_json: parameters in order, with the source text of their defaults -/
+def DataFrame_write_json_signature : List String := ["self", "path", "*", "encoding='utf-8'", "**kwargs"]
+
+/-- dataiter/data_frame.py: DataFrame.write_npz (sha256 of the function source: ec29d9647c02c3b2) -/
+def DataFrame_write_npz (truth : Term → Bool) : Out :=
+  let eff0 : Term := (Term.app "util.makedirs_for_file" [(Term.sym "path")]);
+  let savez' : Term := (if truth (Term.sym "compress") then (Term.sym "np.savez_compressed") else (Term.sym "np.savez"));
+  let eff1 : Term := (Term.app "call" [savez', (Term.sym "path"), (Term.app "=**" [(Term.sym "self")])]);
+  Out.fall [eff0, eff1]
+
+/-- the decorators of dataiter/data_frame.py: DataFrame.write_npz, outermost first -/
+def DataFrame_write_npz_decorators : List String := []
+
+/-- the signature of dataiter/data_frame.py: DataFrame.write_npz: parameters in order, with the source text of their defaults -/
+def DataFrame_write_npz_signature : List String := ["self", "path", "*", "compress=False"]
+
+/-- dataiter/data_frame.py: DataFrame.read_npz (sha256 of the function source: f9bc74d2a12f89e4) -/
+def DataFrame_read_npz (truth : Term → Bool) : Out :=
+  let eff0 : Term := (Term.app "with" [(Term.app "np.load" [(Term.sym "path"), (Term.app "=allow_pickle" [(Term.sym "allow_pickle")])])]);
+  Out.ret [eff0] (Term.app "cls" [(Term.app "=**" [eff0])])
+
+/-- the decorators of dataiter/data_frame.py: DataFrame.read_npz, outermost first -/
+def DataFrame_read_npz_decorators : List String := ["classmethod"]
+
+/-- the signature of dataiter/data_frame.py: DataFrame.read_npz: parameters in order, with the source text of their defaults -/
+def DataFrame_read_npz_signature : List String := ["cls", "path", "*", "allow_pickle=True"]
+
+/-- dataiter/data_frame.py: DataFrame.write_parquet (sha256 of the function source: 9e9dda72d6e8f2e6) -/
+def DataFrame_write_parquet (truth : Term → Bool) : Out :=
+  let data' : Term := (Term.app ".to_arrow" [(Term.sym "self")]);
+  let eff0 : Term := (Term.app "util.makedirs_for_file" [(Term.sym "path")]);
+  let eff1 : Term := (Term.app "pq.write_table" [data', (Term.sym "path"), (Term.app "=**" [(Term.sym "kwargs")])]);
+  Out.fall [eff0, eff1]
+
+/-- the decorators of dataiter/data_frame.py: DataFrame.write_parquet, outermost first -/
+def DataFrame_write_parquet_decorators : List String := []
+
+/-- the signature of dataiter/data_frame.py: DataFrame.write_parquet: parameters in order, with the source text of their defaults -/
+def DataFrame_write_parquet_signature : List String := ["self", "path", "**kwargs"]
+
+/-- dataiter/data_frame.py: DataFrame.write_pickle (sha256 of the function source: 4a2fd8f9b42efb6b) -/
+def DataFrame_write_pickle (truth : Term → Bool) : Out :=
+  let eff0 : Term := (Term.app "util.makedirs_for_file" [(Term.sym "path")]);
+  let eff1 : Term := (Term.app "with" [(Term.app "util.xopen" [(Term.sym "path"), (Term.sym "'wb'")])]);
+  let out' : Term := (Term.app "DictComp" [(Term.app "pair" [(Term.sym "k"), (Term.app "np.array" [(Term.sym "v"), (Term.app ".dtype" [(Term.sym "v")])])]), (Term.app "in" [(Term.app "tuple" [(Term.sym "k"), (Term.sym "v")]), (Term.app ".items" [(Term.sym "self")]), (Term.app "if" [])])]);
+  let eff2 : Term := (Term.app "pickle.dump" [out', eff1, (Term.sym "pickle.HIGHEST_PROTOCOL")]);
+  Out.fall [eff0, eff1, eff2]
+
+/-- the decorators of dataiter/data_frame.py: DataFrame.write_pickle, outermost first -/
+def DataFrame_write_pickle_decorators : List String := []
+
+/-- the signature of dataiter/data_frame.py: DataFrame.write_pickle: parameters in order, with the source text of their defaults -/
+def DataFrame_write_pickle_signature : List String := ["self", "path"]
+
+/-- dataiter/data_frame.py: DataFrame.read_pickle (sha256 of the function source: d91bb1e64a6c829b) -/
+def DataFrame_read_pickle (truth : Term → Bool) : Out :=
+  let eff0 : Term := (Term.app "with" [(Term.app "util.xopen" [(Term.sym "path"), (Term.sym "'rb'")])]);
+  Out.ret [eff0] (Term.app "cls" [(Term.app "pickle.load" [eff0])])
+
+/-- the decorators of dataiter/data_frame.py: DataFrame.read_pickle, outermost first -/
+def DataFrame_read_pickle_decorators : List String := ["classmethod"]
+
+/-- the signature of dataiter/data_frame.py: DataFrame.read_pickle: parameters in order, with the source text of their defaults -/
+def DataFrame_read_pickle_signature : List String := ["cls", "path"]
+
+/-- dataiter/list_of_dicts.py: ListOfDicts.write_csv (sha256 of the function source: eb4d763f80c1737a) -/
+def ListOfDicts_write_csv (truth : Term → Bool) : Out :=
+  if (!truth (Term.sym "self")) then
+    Out.raise [] "ValueError"
+  else
+    let keys' : Term := (Term.app "list()" [(Term.app ".keys" [(Term.sym "self")])]);
+    let eff0 : Term := (Term.app "util.makedirs_for_file" [(Term.sym "path")]);
+    let eff1 : Term := (Term.app "with" [(Term.app "util.xopen" [(Term.sym "path"), (Term.sym "'wt'"), (Term.app "=encoding" [(Term.sym "encoding")])])]);
+    let writer' : Term := (Term.app "csv.DictWriter" [eff1, keys', (Term.app "=dialect" [(Term.sym "'unix'")]), (Term.app "=delimiter" [(Term.sym "sep")]), (Term.app "=quoting" [(Term.sym "csv.QUOTE_MINIMAL")])]);
+    let eff2 : Term := (if truth (Term.sym "header") then (Term.app ".writeheader" [writer']) else (Term.sym "None"));
+    let eff3 : Term := (Term.app "for" [(Term.sym "item"), (Term.sym "self"), (Term.app "block" [(Term.app "assign" [(Term.sym "item"), (Term.app "dict" [(Term.app "**" [(Term.app "dict.fromkeys" [keys'])]), (Term.app "**" [(Term.sym "item")])])]), (Term.app ".writerow" [writer', (Term.sym "item")])])]);
+    let item' : Term := (Term.app "value-after-loop" [(Term.sym "item"), eff3]);
+    Out.fall [eff0, eff1, eff2, eff3]
+
+/-- the decorators of dataiter/list_of_dicts.py: ListOfDicts.write_csv, outermost first -/
+def ListOfDicts_write_csv_decorators : List String := []
+
+/-- the signature of dataiter/list_of_dicts.py: ListOfDicts.write_csv: parameters in order, with the source text of their defaults -/
+def ListOfDicts_write_csv_signature : List String := ["self", "path", "*", "encoding='utf-8'", "header=True", "sep=','"]
+
+/-- dataiter/list_of_dicts.py: ListOfDicts.write_json (sha256 of the function source: 97eb7406cf5131f7) -/
+def ListOfDicts_write_json (truth : Term → Bool) : Out :=
+  let eff0 : Term := (Term.app ".setdefault" [(Term.sym "kwargs"), (Term.sym "'default'"), (Term.sym "str")]);
+  let eff1 : Term := (Term.app ".setdefault" [(Term.sym "kwargs"), (Term.sym "'ensure_ascii'"), (Term.sym "False")]);
+  let eff2 : Term := (Term.app ".setdefault" [(Term.sym "kwargs"), (Term.sym "'indent'"), (Term.int (2 : Int))]);
+  let eff3 : Term := (Term.app "util.makedirs_for_file" [(Term.sym "path")]);
+  let eff4 : Term := (Term.app "with" [(Term.app "util.xopen" [(Term.sym "path"), (Term.sym "'wt'"), (Term.app "=encoding" [(Term.sym "encoding")])])]);
+  let encoder' : Term := (Term.app "json.JSONEncoder" [(Term.app "=**" [(Term.sym "kwargs")])]);
+  let eff5 : Term := (Term.app "for" [(Term.sym "chunk"), (Term.app ".iterencode" [encoder', (Term.sym "self")]), (Term.app "block" [(Term.app ".write" [eff4, (Term.sym "chunk")])])]);
+  let eff6 : Term := (Term.app ".write" [eff4, (Term.sym "'\\n'")]);
+  Out.fall [eff0, eff1, eff2, eff3, eff4, eff5, eff6]
+
+/-- the decorators of dataiter/list_of_dicts.py: ListOfDicts.write_json, outermost first -/
+def ListOfDicts_write_json_decorators : List String := []
+
+/-- the signature of dataiter/list_of_dicts.py: ListOfDicts.write_json: parameters in order, with the source text of their defaults -/
+def ListOfDicts_write_json_signature : List String := ["self", "path", "*", "encoding='utf-8'", "**kwargs"]
+
+/-- dataiter/list_of_dicts.py: ListOfDicts.write_pickle (sha256 of the function source: 06df17b07ca89616) -/
+def ListOfDicts_write_pickle (truth : Term → Bool) : Out :=
+  let eff0 : Term := (Term.app "util.makedirs_for_file" [(Term.sym "path")]);
+  let eff1 : Term := (Term.app "with" [(Term.app "util.xopen" [(Term.sym "path"), (Term.sym "'wb'")])]);
+  let out' : Term := (Term.app "ListComp" [(Term.app "dict()" [(Term.sym "x")]), (Term.app "in" [(Term.sym "x"), (Term.sym "self"), (Term.app "if" [])])]);
+  let eff2 : Term := (Term.app "pickle.dump" [out', eff1, (Term.sym "pickle.HIGHEST_PROTOCOL")]);
+  Out.fall [eff0, eff1, eff2]
+
+/-- the decorators of dataiter/list_of_dicts.py: ListOfDicts.write_pickle, outermost first -/
+def ListOfDicts_write_pickle_decorators : List String := []
+
+/-- the signature of dataiter/list_of_dicts.py: ListOfDicts.write_pickle: parameters in order, with the source text of their defaults -/
+def ListOfDicts_write_pickle_signature : List String := ["self", "path"]
+
+/-- dataiter/list_of_dicts.py: ListOfDicts.read_pickle (sha256 of the function source: 40aaf035a2033dcf) -/
+def ListOfDicts_read_pickle (truth : Term → Bool) : Out :=
+  let eff0 : Term := (Term.app "with" [(Term.app "util.xopen" [(Term.sym "path"), (Term.sym "'rb'")])]);
+  Out.ret [eff0] (Term.app "cls" [(Term.app "pickle.load" [eff0])])
+
+/-- the decorators of dataiter/list_of_dicts.py: ListOfDicts.read_pickle, outermost first -/
+def ListOfDicts_read_pickle_decorators : List String := ["classmethod"]
+
+/-- the signature of dataiter/list_of_dicts.py: ListOfDicts.read_pickle: parameters in order, with the source text of their defaults -/
+def ListOfDicts_read_pickle_signature : List String := ["cls", "path"]
+
 end DI.Gen
